@@ -1144,3 +1144,11 @@ M('c07-loosen-writes-in-place', 'C07', "        with self.get_object_stream(hash
 M('c08-op-session-aliases-container-session', 'C08', "        if self._operation_session is None:\n            self._operation_session = get_session(\n                self._get_pack_index_path(),\n                create=False,\n            )", "        if self._operation_session is None:\n            self._operation_session = self._container_session or get_session(\n                self._get_pack_index_path(),\n                create=False,\n            )", 'C08.R5')
 M('c08-op-session-dropped-unclosed', 'C08', "            binding = self._operation_session.bind\n            self._operation_session.close()\n", "            binding = self._operation_session.bind\n            if not isinstance(binding, Connection):\n                self._operation_session.close()\n", 'C08.R5')
 T('c09-twin-post-write-test-only-single-pass', 'C09', "                    if no_holes and obj_dict['hashkey'] in known_packed_hashkeys:\n                        # The object is there!", "                    if no_holes and not no_holes_read_twice and obj_dict['hashkey'] in known_packed_hashkeys:\n                        # The object is there!")
+T('c07-twin-upper-bound-plus-one', 'C07', "        if target > self._length:\n            raise ValueError('specified target would exceed the upper boundary of bytes that are accessible.')\n        new_pos = self._offset + target", "        if target >= self._length + 1:\n            raise ValueError('specified target would exceed the upper boundary of bytes that are accessible.')\n        new_pos = self._offset + target", U)
+T('c07-twin-chained-bounds', 'C07', "        if target < 0:\n            raise ValueError('specified target would exceed the lower boundary of bytes that are accessible.')\n        if target > self._length:\n            raise ValueError('specified target would exceed the upper boundary of bytes that are accessible.')\n        new_pos = self._offset + target", "        if not 0 <= target <= self._length:\n            raise ValueError('specified target would exceed the boundaries of bytes that are accessible.')\n        new_pos = self._offset + target", U)
+M('c07-seek-to-end-rejected', 'C07', "        if target > self._length:\n            raise ValueError('specified target would exceed the upper boundary of bytes that are accessible.')\n        new_pos = self._offset + target", "        if target >= self._length:\n            raise ValueError('specified target would exceed the upper boundary of bytes that are accessible.')\n        new_pos = self._offset + target", 'C07.R1', U)
+M('c07-upper-bound-off-by-one', 'C07', "        if target > self._length:\n            raise ValueError('specified target would exceed the upper boundary of bytes that are accessible.')\n        new_pos = self._offset + target", "        if target > self._length + 1:\n            raise ValueError('specified target would exceed the upper boundary of bytes that are accessible.')\n        new_pos = self._offset + target", 'C07.R1', U)
+T('c07-twin-tell-returns-cached-pos', 'C07', "        return self._fhandle.tell() - self._offset\n\n    def _update_pos", "        return self._pos\n\n    def _update_pos", U)
+M('c07-tell-returns-pack-position', 'C07', "        return self._fhandle.tell() - self._offset\n\n    def _update_pos", "        return self._fhandle.tell()\n\n    def _update_pos", 'C07.R7', U)
+M('c01-add-object-stream-at-end', 'C01', "        stream = io.BytesIO(content)\n        return self.add_streamed_object(stream)", "        stream = io.BytesIO(content)\n        stream.seek(0, 2)\n        return self.add_streamed_object(stream)", 'C01.R2')
+M('c01-add-objects-to-pack-streams-consumed', 'C01', "        stream_list: list[StreamSeekBytesType] = [io.BytesIO(content) for content in content_list]\n", "        stream_list: list[StreamSeekBytesType] = [io.BytesIO(content) for content in content_list]\n        total = sum(len(stream.read()) for stream in stream_list)\n", 'C01.R2')
